@@ -6,123 +6,124 @@ import "strings"
 // clauses (DESIGN.md section 5). A rule appears here only once it is implemented.
 func registerProps() {
 	propTable["C01"] = PropDef{
-		Title: "Key-value read-after-write: every read returns the last successful write",
-		Rules: []string{"R-TXN", "R-COMMIT", "R-ROWCOMPLETE", "R-READ-NULL", "R-READ-ONCE", "R-LIVE", "R-COLL", "R-ERRPROP", "R-EVT-ROW"},
-		Explanation: "Decides necessary structural clauses, not the behaviour: (a) an operation that fails leaves the document as it was <= every row write runs on the handle of the one transaction (R-TXN) that the runner rolls back on every failing path and whose commit error is reported (R-COMMIT), and no statement error inside a transaction closure is dropped (R-ERRPROP); (b) the last successful write is what is stored <= every body/tombstone/xattr statement assigns the complete row (R-ROWCOMPLETE) and the values bound into it are the operation's own (R-EVT-ROW); (c) missing if deleted <= the read helper maps a NULL body to the missing error (R-READ-NULL), read-side liveness tests use the body column (R-LIVE), reads are scoped to the receiver's collection (R-COLL).",
+		Title:       "Key-value read-after-write: every read returns the last successful write",
+		Rules:       []string{"R-TXN", "R-COMMIT", "R-ROWCOMPLETE", "R-READ-NULL", "R-READ-ONCE", "R-LIVE", "R-COLL", "R-ERRPROP", "R-EVT-ROW", "R-RMW", "R-ERR-OVERWRITE"},
+		Scope:       map[string][]string{"R-RMW": {"WriteSubDoc", "SubdocInsert"}},
+		Explanation: "Decides necessary structural clauses, not the behaviour: (a) an operation that fails leaves the document as it was <= every row write runs on the handle of the one transaction (R-TXN) that the runner rolls back on every failing path and whose commit error is reported (R-COMMIT), and no statement error inside a transaction closure is dropped (R-ERRPROP) nor is a stored error replaced by a later step's before it was examined (R-ERR-OVERWRITE); (b) the last successful write is what is stored <= every body/tombstone/xattr statement assigns the complete row (R-ROWCOMPLETE) and the values bound into it are the operation's own (R-EVT-ROW); a read-modify-write of a body starts every attempt from a fresh read, so that what it stores is the document it last read plus its own change (R-RMW, sub-document writers); (c) missing if deleted <= the read helper maps a NULL body to the missing error (R-READ-NULL), read-side liveness tests use the body column (R-LIVE), reads are scoped to the receiver's collection (R-COLL).",
 		NotDecided:  "equality of returned bytes/CAS/expiry with a model over arbitrary histories; JSON encode/decode; nil bodies passed to Set/Add; purge visibility; value-level control flow inside Update's callback handling.",
 	}
 	propTable["C02"] = PropDef{
-		Title: "Optimistic concurrency: a CAS-conditional write succeeds iff the CAS is current",
-		Rules: []string{"R-CAS", "R-RMW", "R-INSERT-GUARD", "R-TXN", "R-COMMIT", "R-FLAGS"},
+		Title:       "Optimistic concurrency: a CAS-conditional write succeeds iff the CAS is current",
+		Rules:       []string{"R-CAS", "R-RMW", "R-INSERT-GUARD", "R-TXN", "R-COMMIT", "R-FLAGS"},
 		Explanation: "For each of the nine collection entry points with an expected-CAS parameter, every statement that writes body or xattrs is guarded inside the same transaction closure by a SQL conjunct cas = <expected> or by a Go comparison with documents.cas read through the transaction, decided by cut-reachability on the SSA control-flow graph (R-CAS); sub-document writers and Update loops write back with the CAS they read (R-RMW); a rejected write changes nothing because it shares the rolled-back transaction (R-TXN, R-COMMIT); insert semantics for CAS 0 / AddOnly are governed by the conflict guard (R-INSERT-GUARD) and the option flags are enforced (R-FLAGS).",
 		NotDecided:  "behaviour of real interleavings (rests on SQLite isolation and the bucket mutex, trusted); which error value is returned; the pinned CAS-free resurrection of a tombstone by AddOnly.",
 	}
 	propTable["C03"] = PropDef{
-		Title: "Concurrent operations are linearizable, across goroutines and bucket handles",
-		Rules: []string{"R-TXN", "R-TXN-READS", "R-COMMIT", "R-SHARED-COPY", "R-RMW", "R-GUARDED", "R-ONE-TXN", "R-ROWCOMPLETE", "R-REV", "R-READ-ONCE"},
+		Title:       "Concurrent operations are linearizable, across goroutines and bucket handles",
+		Rules:       []string{"R-TXN", "R-TXN-READS", "R-COMMIT", "R-SHARED-COPY", "R-RMW", "R-GUARDED", "R-ONE-TXN", "R-ROWCOMPLETE", "R-REV", "R-READ-ONCE"},
 		Explanation: "Necessary atomic-section structure only: a read outside a transaction is a single statement (R-READ-ONCE); read-modify-write entry points read through the transaction handle and write in the same closure (R-TXN, R-TXN-READS, R-REV's same-transaction clause); the runner holds the shared mutex across Begin..Commit (R-COMMIT); all handle copies share that mutex and database (R-SHARED-COPY); optimistic loops carry the CAS they read, into fresh variables, and retry only on mismatch (R-RMW); shared in-memory maps and flags are accessed under their mutex (R-GUARDED); one transaction per operation (R-ONE-TXN); every mutation refreshes the row's CAS so that a stale reader's conditional write fails (R-ROWCOMPLETE).",
 		NotDecided:  "linearizability of observed histories, real-time order, SQLite's isolation guarantees.",
 	}
 	propTable["C04"] = PropDef{
-		Title: "CAS values are unique and strictly increasing, whatever the clock does",
-		Rules: []string{"R-HLC", "R-MONO", "R-HLC-MARK-SQL", "R-LOCK-PAIR", "R-EVT-ROW"},
+		Title:       "CAS values are unique and strictly increasing, whatever the clock does",
+		Rules:       []string{"R-HLC", "R-MONO", "R-HLC-MARK-SQL", "R-LOCK-PAIR", "R-EVT-ROW"},
 		Explanation: "Composition of checked facts: every regular CAS is a return value of the clock's Now, called only inside closures handed to the transaction runner (R-HLC/CALL); the clock is one package-level object assigned only during initialisation (R-HLC/GLOBAL); Now returns a value strictly above every earlier return because the only stores to its high-water field are old+1 and x under old<x, under the clock's mutex (R-MONO, R-LOCK-PAIR); the CAS stamped into the row is the one handed out (R-EVT-ROW/cas); the same CAS is persisted as bucket.lastCas and collections.lastCas in the same transaction on every success path (R-HLC/MARK, R-HLC-MARK-SQL); the open function raises the clock to the persisted bucket.lastCas before the bucket is registered (R-HLC/SEED).",
 		NotDecided:  "64-bit overflow; CAS values supplied through the *WithMeta API (excluded by the property); SQLite's crash behaviour.",
 	}
 	propTable["C05"] = PropDef{
-		Title: "Tombstone coherence: deleted means no body, for every observer and every path",
-		Rules: []string{"R-TOMB", "R-ROWCOMPLETE", "R-XATTR-CARRY", "R-PURGE", "R-BACKFILL", "R-EVT-ROW", "R-LIVE"},
-		Explanation: "The two encodings of 'deleted' (value IS NULL, tombstone flag) are written together and coherently by every statement (R-TOMB); tombstoning clears expiry and rewrites xattrs, body-giving writes clear a tombstone's xattrs (R-ROWCOMPLETE, R-XATTR-CARRY); purge removes exactly the rows without a body (R-PURGE); the deletion flag of live and backfill events comes from the same row state (R-EVT-ROW, R-BACKFILL); readers use the body column (R-LIVE).",
+		Title:       "Tombstone coherence: deleted means no body, for every observer and every path",
+		Rules:       []string{"R-TOMB", "R-ROWCOMPLETE", "R-XATTR-CARRY", "R-TOMB-XATTRS", "R-PURGE", "R-BACKFILL", "R-EVT-ROW", "R-LIVE"},
+		Explanation: "The two encodings of 'deleted' (value IS NULL, tombstone flag) are written together and coherently by every statement (R-TOMB); tombstoning clears expiry and rewrites xattrs, body-giving writes clear a tombstone's xattrs (R-ROWCOMPLETE, R-XATTR-CARRY); the xattrs a tombstoning statement binds have been filtered since they were read, or are known empty (R-TOMB-XATTRS); the deletion flag of an event is a nil-test of the body that statement stores (R-EVT-ROW); purge removes exactly the rows without a body (R-PURGE); the deletion flag of live and backfill events comes from the same row state (R-EVT-ROW, R-BACKFILL); readers use the body column (R-LIVE).",
 		NotDecided:  "which xattrs count as system xattrs (the underscore test is value level); nil bodies bound to a statement that writes tombstone=0; agreement of observers over concrete histories.",
 	}
 	propTable["C06"] = PropDef{
-		Title: "Insert-only writes never overwrite a live document, always create an absent one",
-		Rules: []string{"R-INSERT-GUARD", "R-FLAGS", "R-TOMB", "R-CAS"},
+		Title:       "Insert-only writes never overwrite a live document, always create an absent one",
+		Rules:       []string{"R-INSERT-GUARD", "R-FLAGS", "R-TOMB", "R-CAS"},
 		Explanation: "Every INSERT..ON CONFLICT DO UPDATE on documents (except the upsert primitive) restricts its update, as a top-level AND-conjunct, to rows without a body and has its RowsAffected consulted; Add/AddRaw reach only such guarded inserts (R-INSERT-GUARD); callers of the unconditional upsert primitive decide existence in Go through option flags that guard error returns (R-FLAGS); the guard's flag means 'no body' because the flag and the body are written together (R-TOMB); WriteCas' CAS-less insert variant is reachable only for CAS 0 / AddOnly (R-CAS).",
 		NotDecided:  "per-history truth of the 'iff'; nil bodies.",
 	}
 	propTable["C07"] = PropDef{
-		Title: "Body and xattrs are independent; a combined write is all-or-nothing",
-		Rules: []string{"R-TXN", "R-ERRPROP", "R-XATTR-CARRY", "R-MACRO-ORDER", "R-ONE-TXN", "R-EVT-ROW", "R-ROWCOMPLETE"},
-		Explanation: "A combined write is one transaction with one CAS in which no statement error is dropped (R-TXN, R-ONE-TXN, R-ERRPROP, R-EVT-ROW/cas); body-only writes carry the row's xattrs over and clear them only on tombstones (R-XATTR-CARRY); the event fields that macro expansion reads (cas, value) are final when it runs (R-MACRO-ORDER); xattr-only statements still refresh cas and revSeqNo (R-ROWCOMPLETE).",
+		Title:       "Body and xattrs are independent; a combined write is all-or-nothing",
+		Rules:       []string{"R-TXN", "R-ERRPROP", "R-XATTR-CARRY", "R-MACRO-ORDER", "R-ONE-TXN", "R-EVT-ROW", "R-ROWCOMPLETE", "R-ERR-OVERWRITE", "R-OPTS-CARRY"},
+		Explanation: "The options a caller gives (PreserveExpiry, macro expansions) reach the function that does the write unchanged or as a complete copy (R-OPTS-CARRY). A combined write is one transaction with one CAS in which no statement error is dropped, nor an error of one step (e.g. one xattr key of several) replaced by a later step's before it was examined (R-TXN, R-ONE-TXN, R-ERRPROP, R-ERR-OVERWRITE, R-EVT-ROW/cas); body-only writes carry the row's xattrs over and clear them only on tombstones (R-XATTR-CARRY); the event fields that macro expansion reads (cas, value) are final when it runs (R-MACRO-ORDER); xattr-only statements still refresh cas and revSeqNo (R-ROWCOMPLETE).",
 		NotDecided:  "byte-for-byte preservation through JSON re-marshalling; CRC correctness; which inputs count as nil (payload.isNil is value level); error classification.",
 	}
 	propTable["C08"] = PropDef{
-		Title: "Live feed: one faithful event per successful mutation, delivered in CAS order",
-		Rules: []string{"R-EVT-1", "R-EVT-FEEDEVENT", "R-EVT-ROW", "R-EVT-CONV", "R-QUEUE", "R-ATOMIC-ENQ", "R-POST-ORDER", "R-FEEDMAP", "R-FEEDMAP-WRITERS", "R-SHARED-COPY", "R-INSERT-GUARD"},
+		Title:       "Live feed: one faithful event per successful mutation, delivered in CAS order",
+		Rules:       []string{"R-EVT-1", "R-EVT-FEEDEVENT", "R-EVT-ROW", "R-EVT-CONV", "R-QUEUE", "R-ATOMIC-ENQ", "R-POST-ORDER", "R-FEEDMAP", "R-FEEDMAP-WRITERS", "R-SHARED-COPY", "R-INSERT-GUARD"},
 		Explanation: "The post function is never reachable from inside a transaction and each call of it is guarded by 'transaction error is nil' and 'event is non-nil' (R-EVT-1); mutation/deletion FeedEvents are built only by the one converter, whose fields are computed from exactly the corresponding event fields (R-EVT-FEEDEVENT, R-EVT-CONV); for every write unit each event field is the value bound into (or scanned back from) the row in the same transaction (R-EVT-ROW); queues are FIFO (R-QUEUE); commit and enqueue share a critical section and nothing that can block precedes the enqueue (R-ATOMIC-ENQ, R-POST-ORDER); registry entries are only ever extended by appending a new feed (R-FEEDMAP-WRITERS); events go to the writer's own collection's feeds, shared by all handles (R-FEEDMAP, R-SHARED-COPY); a refused insert leaves without an event (R-INSERT-GUARD).",
 		NotDecided:  "delivery itself (goroutine scheduling), xattr framing bytes, exactly-once at run time.",
 	}
 	propTable["C09"] = PropDef{
-		Title: "Backfill is a faithful snapshot and joins the live stream without a gap",
-		Rules: []string{"R-BACKFILL", "R-BACKFILL-GAP", "R-EVT-CONV", "R-COLL"},
-		Explanation: "The backfill statement ranges over exactly the receiver's rows with cas >= start (tombstones included), ordered by cas, and its Scan fills every event field from the column that mirrors it, through the same converter as live events (R-BACKFILL, R-EVT-CONV, R-COLL); snapshot and live registration must form one critical section (R-BACKFILL-GAP).",
+		Title:       "Backfill is a faithful snapshot and joins the live stream without a gap",
+		Rules:       []string{"R-BACKFILL", "R-BACKFILL-GAP", "R-EVT-CONV", "R-COLL", "R-BACKFILL-COND", "R-EVT-FEEDEVENT"},
+		Explanation: "The snapshot is taken whenever the arguments ask for it (R-BACKFILL-COND) and the live fan-out hands every event to every registered feed without filtering on event or feed state (R-EVT-FEEDEVENT). The backfill statement ranges over exactly the receiver's rows with cas >= start (tombstones included), ordered by cas, and its Scan fills every event field from the column that mirrors it, through the same converter as live events (R-BACKFILL, R-EVT-CONV, R-COLL); snapshot and live registration must form one critical section (R-BACKFILL-GAP).",
 		NotDecided:  "that the snapshot equals the contents at a linearisation point; the interleaving of queued live events with backfill events at run time; begin/end marker placement beyond what R-BACKFILL-GAP's function shape implies.",
 	}
 	propTable["C10"] = PropDef{
-		Title: "Durability and crash atomicity of on-disk buckets",
-		Rules: []string{"R-TXN", "R-ONE-TXN", "R-COMMIT", "R-HLC", "R-HLC-MARK-SQL", "R-DSN", "R-EXP-SQL", "R-OPENMODE"},
-		Explanation: "One transaction per operation containing row, marks and index rows (R-TXN, R-ONE-TXN, R-HLC/MARK, R-HLC-MARK-SQL); success is reported only after a successful Commit (R-COMMIT); durability options of the connection string (R-DSN); the reopen path keeps identity (schema initialised only when user_version is 0: R-OPENMODE), re-seeds the clock (R-HLC/SEED) and re-arms expiry from a query over all rows with exp > 0, overdue ones included (R-EXP-SQL, R-OPENMODE).",
+		Title:       "Durability and crash atomicity of on-disk buckets",
+		Rules:       []string{"R-TXN", "R-ONE-TXN", "R-COMMIT", "R-HLC", "R-HLC-MARK-SQL", "R-DSN", "R-EXP-SQL", "R-OPENMODE", "R-OPEN-ERR"},
+		Explanation: "An open that fails after the bucket was registered would delete a store other handles share: no return carries an error after registration (R-OPEN-ERR). One transaction per operation containing row, marks and index rows (R-TXN, R-ONE-TXN, R-HLC/MARK, R-HLC-MARK-SQL); success is reported only after a successful Commit (R-COMMIT); durability options of the connection string (R-DSN); the reopen path keeps identity (schema initialised only when user_version is 0: R-OPENMODE), re-seeds the clock (R-HLC/SEED) and re-arms expiry from a query over all rows with exp > 0, overdue ones included (R-EXP-SQL, R-OPENMODE).",
 		NotDecided:  "SQLite/WAL/OS crash behaviour (trusted base); that acknowledged data is physically on disk.",
 	}
 	propTable["C11"] = PropDef{
-		Title: "Collections (and buckets) are isolated from one another",
-		Rules: []string{"R-COLL", "R-KEYSPACE", "R-DROP", "R-FEEDMAP", "R-EXP-SQL", "R-DSN"},
+		Title:       "Collections (and buckets) are isolated from one another",
+		Rules:       []string{"R-COLL", "R-KEYSPACE", "R-DROP", "R-FEEDMAP", "R-EXP-SQL", "R-DSN"},
 		Explanation: "Complete for SQL-mediated state: every statement variant of every collection method constrains every collection-owned table it ranges over (ownership from schema.sql foreign keys) to the receiver's id (R-COLL, R-KEYSPACE, R-EXP-SQL); dropping is keyed by scope and name, cascades through every ownership foreign key (enforced: _foreign_keys=1, R-DSN) and ids are never reused (R-DROP); feeds are registered and stopped under the collection's own name and the shared registry is never replaced (R-FEEDMAP).",
 		NotDecided:  "caller-supplied SQL beyond the keyspace envelope; CreateIndex (bucket-wide by documentation).",
 	}
 	propTable["C12"] = PropDef{
-		Title: "A non-stale view query equals the map function applied to the current documents",
-		Rules: []string{"R-VIEW", "R-VIEW-MARK", "R-COLL", "R-DROP", "R-ONE-TXN", "R-TXN"},
-		Explanation: "In the index-update closure the obsolete-row delete and the re-map select use the same comparator on documents.cas and the same bound mark, and the view's mark is set to the collection mark read through the same transaction (R-VIEW, R-TXN); every transaction that changes a document advances the collection mark (R-VIEW-MARK); the row query orders by (mapped.key, documents.key) in one direction with the range operators paired to min/max (R-VIEW); the compiled map function is reused from the cache only when its source is unchanged (R-VIEW); replacing a design document is one transaction whose delete precedes the inserts (R-VIEW, R-ONE-TXN); index rows are scoped and cascade (R-COLL, R-DROP).",
+		Title:       "A non-stale view query equals the map function applied to the current documents",
+		Rules:       []string{"R-VIEW", "R-VIEW-MARK", "R-COLL", "R-DROP", "R-ONE-TXN", "R-TXN", "R-VIEW-PARAMS", "R-HLC"},
+		Explanation: "The incremental index update selects documents above the last indexed CAS, which is complete only if CAS order is commit order: the CAS is drawn inside the transaction closure under the bucket mutex (R-HLC/CALL). Every honoured query option is still read (R-VIEW-PARAMS). In the index-update closure the obsolete-row delete and the re-map select use the same comparator on documents.cas and the same bound mark, and the view's mark is set to the collection mark read through the same transaction (R-VIEW, R-TXN); every transaction that changes a document advances the collection mark (R-VIEW-MARK); the row query orders by (mapped.key, documents.key) in one direction with the range operators paired to min/max (R-VIEW); the compiled map function is reused from the cache only when its source is unchanged (R-VIEW); replacing a design document is one transaction whose delete precedes the inserts (R-VIEW, R-ONE-TXN); index rows are scoped and cascade (R-COLL, R-DROP).",
 		NotDecided:  "JavaScript map/reduce evaluation, the collation function, parameter post-processing in sg-bucket.",
 	}
 	propTable["C13"] = PropDef{
-		Title: "Bucket handle lifecycle: open modes, sharing, reference counting and deletion",
-		Rules: []string{"R-REGISTRY", "R-OPENMODE", "R-CLOSED", "R-SHARED-COPY", "R-LOCK-PAIR", "R-GUARDED"},
-		Explanation: "Handles are handed out only after a counted increment under the registry lock, store shutdown and entry removal are one critical section, deleting always reaches the file removal, Close releases its reference once and sets the closed flag under the mutex (R-REGISTRY); open-mode guards of the lookup and open functions (R-OPENMODE); the raw DB handle is used only behind the closed test and never reassigned (R-CLOSED); copies share the store (R-SHARED-COPY); registry and flags under their locks (R-GUARDED, R-LOCK-PAIR).",
+		Title:       "Bucket handle lifecycle: open modes, sharing, reference counting and deletion",
+		Rules:       []string{"R-REGISTRY", "R-OPENMODE", "R-CLOSED", "R-SHARED-COPY", "R-LOCK-PAIR", "R-GUARDED", "R-OPEN-ERR"},
+		Explanation: "No return of the open function carries an error once the bucket is registered, so its cleanup-on-error cannot delete a shared store (R-OPEN-ERR). Handles are handed out only after a counted increment under the registry lock, store shutdown and entry removal are one critical section, deleting always reaches the file removal, Close releases its reference once and sets the closed flag under the mutex (R-REGISTRY); open-mode guards of the lookup and open functions (R-OPENMODE); the raw DB handle is used only behind the closed test and never reassigned (R-CLOSED); copies share the store (R-SHARED-COPY); registry and flags under their locks (R-GUARDED, R-LOCK-PAIR).",
 		NotDecided:  "file-system effects; concurrent first opens of one name.",
 	}
 	propTable["C14"] = PropDef{
-		Title: "Expiry: documents live until their expiry time and are tombstoned soon after",
-		Rules: []string{"R-EXP-SQL", "R-EXP", "R-EVT-ROW", "R-ROWCOMPLETE", "R-OPENMODE", "R-TIMER"},
-		Explanation: "Every expiry bound into a statement is absolute (passed through the offset-to-absolute function), preserved from the row, or 0 (R-EXP/a); every write unit that stores a possibly non-zero expiry leaves its closure with an event carrying that same value, or arms the timer itself with it (R-EXP/b, R-EVT-ROW/exp); the arm function re-arms iff cur == 0 or exp < cur, the callback clears the deadline and re-arms from the min-expiry query, the open function re-arms when the schema existed (R-EXP/c-e, R-OPENMODE); the expiry scan and min query predicates (R-EXP-SQL); tombstoning clears expiry (R-ROWCOMPLETE); the offset rule 0 < exp <= 30 days (R-EXP/h).",
+		Title:       "Expiry: documents live until their expiry time and are tombstoned soon after",
+		Rules:       []string{"R-EXP-SQL", "R-EXP", "R-EVT-ROW", "R-ROWCOMPLETE", "R-OPENMODE", "R-TIMER", "R-OPTS-CARRY"},
+		Explanation: "PreserveExpiry and the other write options reach the writer unchanged (R-OPTS-CARRY). Every expiry bound into a statement is absolute (passed through the offset-to-absolute function), preserved from the row, or 0 (R-EXP/a); every write unit that stores a possibly non-zero expiry leaves its closure with an event carrying that same value, or arms the timer itself with it (R-EXP/b, R-EVT-ROW/exp); the arm function re-arms iff cur == 0 or exp < cur, the callback clears the deadline and re-arms from the min-expiry query, the open function re-arms when the schema existed (R-EXP/c-e, R-OPENMODE); the expiry scan and min query predicates (R-EXP-SQL); tombstoning clears expiry (R-ROWCOMPLETE); the offset rule 0 < exp <= 30 days (R-EXP/h).",
 		NotDecided:  "all timing ('before T', 'within a few seconds'); timer goroutine scheduling.",
 	}
 	propTable["C15"] = PropDef{
-		Title: "Checkpointed feeds resume without skipping a mutation",
-		Rules: []string{"R-CHECKPOINT", "R-ATOMIC-ENQ", "R-BACKFILL", "R-BACKFILL-GAP", "R-QUEUE"},
+		Title:       "Checkpointed feeds resume without skipping a mutation",
+		Rules:       []string{"R-CHECKPOINT", "R-ATOMIC-ENQ", "R-BACKFILL", "R-BACKFILL-GAP", "R-QUEUE", "R-BACKFILL-COND", "R-FEEDMAP-WRITERS", "R-EVT-FEEDEVENT"},
 		Explanation: "Resume starts at checkpoint+1 with an inclusive lower bound (R-CHECKPOINT, R-BACKFILL); the feed loop advances its delivered-CAS only from the event just passed to the callback and only upwards, and persists exactly that field (R-CHECKPOINT); its premise, CAS-ordered delivery, needs FIFO queues, enqueue inside the commit's critical section and a backfill that is not interleaved with live events (R-QUEUE, R-ATOMIC-ENQ, R-BACKFILL-GAP).",
 		NotDecided:  "the union-of-runs behaviour itself.",
 	}
 	propTable["C16"] = PropDef{
-		Title: "Feeds terminate cleanly and independently",
-		Rules: []string{"R-DONE", "R-FEED-START", "R-LOOPVAR", "R-QUEUE", "R-SHUTDOWN", "R-FEEDMAP", "R-FEEDMAP-WRITERS", "R-GUARDED"},
+		Title:       "Feeds terminate cleanly and independently",
+		Rules:       []string{"R-DONE", "R-FEED-START", "R-LOOPVAR", "R-QUEUE", "R-SHUTDOWN", "R-FEEDMAP", "R-FEEDMAP-WRITERS", "R-GUARDED"},
 		Explanation: "The feed loop closes its done channel by a deferred close guarded only by 'channel is non-nil', starts its terminator goroutine whenever a terminator is given, and calls the callback only for non-nil events; per-collection done channels are fresh, passed to their feed, and coalesced by one goroutine that does not capture a loop variable (R-DONE, R-LOOPVAR); every started feed is registered or has its end marker (R-FEED-START); close wakes the puller (R-QUEUE); shutdown walks the shared registry before closing the database (R-SHUTDOWN); stopping a collection's feeds touches only its own registry entry (R-FEEDMAP); the registry is accessed under the bucket mutex (R-GUARDED).",
 		NotDecided:  "actual goroutine exit, starvation under load.",
 	}
 	propTable["C17"] = PropDef{
-		Title: "Revision sequence number counts the mutations of a key",
-		Rules: []string{"R-REV", "R-ROWCOMPLETE", "R-EVT-ROW", "R-BACKFILL", "R-EVT-CONV"},
+		Title:       "Revision sequence number counts the mutations of a key",
+		Rules:       []string{"R-REV", "R-ROWCOMPLETE", "R-EVT-ROW", "R-BACKFILL", "R-EVT-CONV", "R-COLL"},
 		Explanation: "In every write unit the value bound to revSeqNo is (the row's revSeqNo read through the same transaction, or 0 when there is no row) + 1, on every path (R-REV); every kind of write unit assigns the column (R-ROWCOMPLETE); the event carries the same term (R-EVT-ROW/revSeqNo) and the converter and backfill map it to RevNo (R-EVT-CONV, R-BACKFILL); the virtual xattrs format the revSeqNo of their own SELECT (R-REV).",
 		NotDecided:  "numbering across purge/re-create histories beyond 'absent row counts from 0'.",
 	}
 	propTable["C18"] = PropDef{
-		Title: "Sub-document writes change only the addressed property, CAS-safely",
-		Rules: []string{"R-RMW", "R-CAS"},
-		Scope: map[string][]string{"R-RMW": {"WriteSubDoc", "SubdocInsert"}, "R-CAS": {"WriteCas"}},
+		Title:       "Sub-document writes change only the addressed property, CAS-safely",
+		Rules:       []string{"R-RMW", "R-CAS"},
+		Scope:       map[string][]string{"R-RMW": {"WriteSubDoc", "SubdocInsert"}, "R-CAS": {"WriteCas"}},
 		Explanation: "The sub-document writer reads into a variable that is fresh in every iteration, compares a caller-supplied CAS with the CAS it read before writing, writes back through the CAS-conditional entry point with the read CAS, and retries only on a CAS mismatch (R-RMW); that entry point's own guard is R-CAS.",
 		NotDecided:  "JSON path semantics (including null parents), preservation of the other properties (value level), GetSubDocRaw's result.",
 	}
 	propTable["C19"] = PropDef{
-		Title: "SQL queries see exactly the live documents of their collection",
-		Rules: []string{"R-KEYSPACE", "R-LIVE", "R-COLL", "R-ROWBUF"},
+		Title:       "SQL queries see exactly the live documents of their collection",
+		Rules:       []string{"R-KEYSPACE", "R-LIVE", "R-COLL", "R-ROWBUF"},
 		Explanation: "Every statement with caller-supplied text is wrapped in one CTE selecting key AS id, value AS body, xattrs from documents where collection = receiver id and value NOT NULL, with no further conjunct (R-KEYSPACE, R-COLL); liveness is decided from the body as the key-value reads do (R-LIVE); the row iterator hands out each row in storage private to that call, so the pre-recorded iterator of in-memory buckets keeps distinct rows (R-ROWBUF).",
 		NotDecided:  "row-by-row equality with a key-value read-back; iterator exhaustiveness; the caller's own SQL.",
 	}
 	propTable["C20"] = PropDef{
-		Title: "Shutdown is safe: no panic, deadlock or leaked goroutine at any timing",
-		Rules: []string{"R-LOCK-PAIR", "R-LOCK-ORDER", "R-GUARDED", "R-TXN-READS", "R-SHUTDOWN", "R-CLOSED", "R-FEEDMAP", "R-BG-PANIC", "R-TIMER", "R-DONE", "R-LOOPVAR"},
+		Title:       "Shutdown is safe: no panic, deadlock or leaked goroutine at any timing",
+		Rules:       []string{"R-LOCK-PAIR", "R-LOCK-ORDER", "R-GUARDED", "R-TXN-READS", "R-SHUTDOWN", "R-CLOSED", "R-FEEDMAP", "R-BG-PANIC", "R-TIMER", "R-DONE", "R-LOOPVAR"},
 		Explanation: "No lock is left held on any path (R-LOCK-PAIR); the lock-order graph computed from must-hold locksets and transitive may-acquire summaries is acyclic (R-LOCK-ORDER) and nothing inside a transaction re-enters the bucket mutex (R-TXN-READS); maps and the closed flag are accessed under their mutex (R-GUARDED: a concurrent map access is a fatal error); shutdown order (R-SHUTDOWN); the DB handle is never reset and is used only behind the closed test (R-CLOSED); the feed registry is never replaced (R-FEEDMAP); no explicit panic is reachable from a goroutine root or timer callback except the converter's assertions (R-BG-PANIC); the done channel of a feed is closed once (R-DONE, R-LOOPVAR: a second close panics in a library goroutine); only one expiry timer is ever pending, so stop() cancels it (R-TIMER).",
 		NotDecided:  "absence of goroutine leaks and of run-time panics in general (nil dereferences, index errors); timing.",
 	}
